@@ -30,7 +30,7 @@ static mjData* make_used(const mjModel* m, Rng& r, int steps) {
 int main(int argc, char** argv) {
   setup(argc, argv, "C01");
   use_caching_alloc();
-  Supply sup; sup.init();
+  Supply sup; sup.init(); sup.allow_flex = true; sup.vary_options = true;
   for (uint64_t s = g_args.seed0; s < g_args.seed0 + g_args.n; s++) {
     begin_case(s);
     ND_CASE_GUARD();
@@ -113,9 +113,16 @@ int main(int argc, char** argv) {
       if (!is_compute(it.op.kind)) continue;
       // compare
       mu::Diff df;
-      if (full_copy) df = mu::compare(m, A, B, scratch_fields(m));
+      if (full_copy) {
+        std::set<std::string> ex = scratch_fields(m);
+        // efc_b is an input of the forward solvers only: mj_inverse re-allocates the constraint arrays and does not write it, so after
+        // mj_inverse it holds whatever the arena held (visible when the forward and inverse passes lay the arena out differently)
+        if (it.op.kind == O_INVERSE) ex.insert("efc_b");
+        df = mu::compare(m, A, B, ex);
+      }
       else {
         std::set<std::string> ex = conditional_fields(m, inverse_called, it.op.kind == O_STEP);
+        if (it.op.kind == O_INVERSE) ex.insert("efc_b");
         df = mu::compare(m, A, B, ex);
       }
       ncompared++;
